@@ -5,4 +5,5 @@ cd "$(dirname "$0")"
 export CARGO_NET_OFFLINE=true
 mkdir -p target evidence
 ( cd harness && CARGO_TARGET_DIR="$(pwd)/../target/harness" cargo build --offline --profile mc -p mc )
+( cd /repo && CARGO_TARGET_DIR="$(cd /verif && pwd)/target/repo-cli" CARGO_PROFILE_DEV_OPT_LEVEL=1 CARGO_PROFILE_DEV_DEBUG=0 cargo build --offline -p rink )
 echo "setup done"
